@@ -3,7 +3,8 @@ Instances are discovered structurally: every function that calls llvm.sadd.with.
  R1 the value whose width is measured and the value that is stored are the same SSA value (modulo casts), and it is the checked sum
  R2 the store (put) is dominated by the no-overflow edge and by the evaluation of `newWidth > oldWidth`; on the overflow edge
     the function returns 0 and nothing reachable writes through the varint pointer
- R3 (extent) the put writes exactly `width(value)` bytes: discharged by C01-L1/L3 (length agreement, footprint), referenced here
+ R3 (extent) the put writes exactly `width(value)` bytes: discharged by C01-L1/L3 (length agreement, footprint), referenced here;
+    a put that takes an explicit width must receive the width measured for the stored value
  R4 every return that is not preceded by the put is the overflow return, or is reached only through the strict comparison
     newWidth > oldWidth together with !force (a `>=` would refuse sums that fit)"""
 import os
@@ -155,6 +156,13 @@ def analyse(mod, run, label):
                   Finding("R1-width-of-wrong-value", fn.name, "width-computation", "value",
                           "the width computed at %s is that of a different value than the sum that is stored (the old value is measured, the new value is written): a no-grow add can write past the slot" % loc(meas[2]), loc=loc(meas[2])))
         newW = meas[1]
+        # ---- R3a: a put that takes an explicit width must be given the width measured for the value it stores ----
+        for put in puts:
+            if put.op != "call": continue
+            wargs = [put.ops[k] for k in range(put["nargs"]) if not put.ops[k]["t"].endswith("*") and put.ops[k]["t"] == "i32"]
+            for wa in wargs:
+                run.check(same(fn, wa, newW), "R3-explicit-width-is-measured-width", {"fn": fn.name, "put": loc(put), "callee": put.get("callee")},
+                          Finding("R3-put-with-foreign-width", fn.name, "put:%s" % put.get("callee"), "width", "%s at %s stores the sum with an explicit width that is not the width measured for the sum (e.g. the old width): in the tagged format the 2- and 3-byte classes only represent values of exactly that class, so the stored bytes decode to a different number" % (put.get("callee"), loc(put)), loc=loc(put)))
         # ---- R4 / R2b: the refusal comparison ----
         cmpb = None
         for b in fn.blocks:
